@@ -243,6 +243,14 @@ func mutateForPrestate(r *rng, cur, orig *Node, digests map[string]string, kinds
 			if m != nil {
 				n.Ents = append(n.Ents, Ent{e.Name, m})
 			}
+			if e.N.Kind == "f" && r.chance(1, 4) {
+				// a bystander whose name is the entry's plus a suffix a temporary file might use
+				by := e.Name + []string{".part", ".tmp", "~", ".bak", ".dud-link-1"}[r.intn(5)]
+				if orig.get(by) == nil && n.get(by) == nil {
+					kinds["suffix-named-bystander"]++
+					n.Ents = append(n.Ents, Ent{by, nFile([]byte("bystander " + by))})
+				}
+			}
 		}
 		if r.chance(1, 4) {
 			kinds["extra-file"]++
